@@ -19,9 +19,15 @@ def run(ev, vd):
         if not r.ok:
             raise ToolError("LockMgr model violates %s\n%s" % (r.violation, brief(r.out)))
     jobs = [j for j in fe.STD_JOBS]
-    tr, res, hangs = fe.campaign(ev, ["foreach_a", "foreach_b"], jobs, "c02")
+    # more schedules per worklist on the chunked family (isolation does not depend on the worklist), all worklists once
+    tr, res, hangs = fe.campaign(ev, ["foreach_a"], jobs, "c02", env={"VERIF_FE_MULT": "4"})
     execs = fe.summarize(ev, tr)
-    rej = fe.report(ev, vd, tr, res, hangs, "C02")
+    # "pushes ... discarded before it is retried" is part of C02's statement: work that stems from an aborted attempt is reported here too
+    mine = {"C02", "start:not-pending", "start:already-committed"}
+    rej = fe.report(ev, vd, tr, res, hangs, mine)
+    tr2, res2, hangs2 = fe.campaign(ev, ["foreach_b"], [("ctl", "C", None), ("ctl", "C", "2x2"), ("free", "F", None)], "c02b")
+    execs += fe.summarize(ev, tr2)
+    rej += fe.report(ev, vd, tr2, res2, hangs2, mine)
     ev.cov["traces_validated_against_impl"] = execs - rej
     ev.cov["rule"] = ("as C01; the executions with conflict detection carry 1-6 shared lockable objects, re-acquisition, READ/WRITE/"
                       "UNPROTECTED flags, voluntary aborts; distinct = (worklist, mode, topology, cd, threads, seed); non-trivial = >= 2 threads and >= 2 items")
